@@ -165,9 +165,19 @@ def main(tier, seed):
 
     # ---- fixtures
     ads_list = [("N2@77.344", n2(), 77.344), ("custom", custom_adsorbate(), 300.0)]
+    # several backend-linked adsorbates at ONE common temperature, visited one after another
+    # (state shared between adsorbates, or between liquid and vapour queries, must stay invisible)
+    import pygaps
+    shared_t = []
+    for nm in ("argon", "nitrogen", "methane", "oxygen", "carbon monoxide"):
+        try:
+            shared_t.append((f"{nm}@100", pygaps.Adsorbate.find(nm), 100.0))
+        except Exception:
+            pass
+    n_base = len(ads_list)
+    ads_list += shared_t
     mat = custom_material()
     if thorough:
-        import pygaps
         extra = []
         for a in pygaps.ADSORBATE_LIST:
             try:
@@ -225,9 +235,10 @@ def main(tier, seed):
         head, tail = recs[:n_valid], recs[n_valid:]
         rng.shuffle(tail)
         recs = head + tail[: len(tail) // 2]
-    if thorough and len(ads_list) > 2:
+    if len(ads_list) > 2:
         # backend sweep: the pairs that consult the backend, for every backend-linked adsorbate
-        for fi in range(2, len(ads_list)):
+        # (interleaved over the adsorbates so that consecutive calls hit different adsorbates)
+        for fi in list(range(2, len(ads_list))) * (2 if not thorough else 1):
             for f, t in (("absolute", "bar"), ("relative", "none")), (("relative%", "none"), ("absolute", "torr")):
                 add("P", f, t, g, fi)
             for f, t in ((("mass", "mg"), ("volume_liquid", "cm3")), (("volume_gas", "L"), ("molar", "mmol")),
